@@ -283,7 +283,11 @@ def run_copy(case, ctx):
         # identical histories -> identical persisted content -> compare must still say "equal"
         # (a difference here can only come from something that is not a quantity of the simulation, e.g. an address)
         ma, mb = rb.smap(sim, keep_funcptr=True), rb.smap(cp, keep_funcptr=True)
-        if not case.get("tree") and ma == mb:
+        import math
+        has_nan = any(math.isnan(v) for q in rb.pfloat(sim) for v in q)
+        if has_nan:
+            ctx.cls("nan_state")      # a blown-up (NaN) state is outside the domain: NaN != NaN numerically
+        if not case.get("tree") and ma == mb and not has_nan:
             e = equal_both(sim, cp)
             if not all(e):
                 raise Violation("after the same %d steps copy (%s) and source hold identical persisted quantities but "
